@@ -46,11 +46,19 @@ impl Property for C15 {
         tier.pick(4000, 40000)
     }
     fn strategy(&self, tier: Tier) -> BoxedStrategy<Json> {
+        self.strategy_for_shard(tier, 0)
+    }
+    fn shards(&self, _tier: Tier) -> usize {
+        18
+    }
+    fn strategy_for_shard(&self, tier: Tier, shard: usize) -> BoxedStrategy<Json> {
+        // shards 16 and 17 navigate: handles are read in mid-history (see HistCfg::w_navigate)
+        let w_navigate: u32 = if shard >= 16 { 5 } else { 0 };
         let max_ops = tier.pick(10usize, 30usize);
         proptest::collection::vec(any::<u16>(), 0..(max_ops * 8 + 8))
             .prop_map(move |genes| {
                 let mut g = Genes::new(genes);
-                let cfg = HistCfg { max_ops, safe_strings: false, w_struct: 5, w_attr: 4, w_chardata: 7, w_create: 5, huge_offsets: false, w_compound: 5, ..Default::default() };
+                let cfg = HistCfg { max_ops, safe_strings: false, w_struct: 5, w_attr: 4, w_chardata: 7, w_create: 5, huge_offsets: false, w_compound: 5, w_navigate, ..Default::default() };
                 hist::gen_history(&mut g, &cfg)
             })
             .boxed()
